@@ -44,7 +44,7 @@ def cases(draw, tier):
     variant = draw(st.sampled_from(VARIANTS + ["cli_json"]))
     idk = "tsv" if variant.startswith("cli") else \
         draw(st.sampled_from(["unicode", "simple"]))
-    vk = draw(st.sampled_from(["wild", "count", "int"]))
+    vk = draw(st.sampled_from(["wild", "count", "int", "small", "small"]))
     shape = None
     if variant == "cli_json" and draw(st.integers(0, 2)) == 0:
         # two-digit positions on one axis (the text slicer works on index
@@ -53,7 +53,29 @@ def cases(draw, tier):
         shape = (big, small) if draw(st.booleans()) else (small, big)
     spec = draw(gen.h5_table_specs(tier, values=vk, ids=idk, shape=shape))
     spec["obs_gmd"] = spec["samp_gmd"] = None
-    return {"table": spec, "axis": draw(ops.AX), "mask": draw(ops.MASK),
+    axis_, mask_ = draw(ops.AX), draw(ops.MASK)
+    n_ax = len(spec["samp"] if axis_ == "sample" else spec["obs"])
+    kept = [i for i, k in enumerate(ops.mask_for(n_ax, mask_)) if k]
+    n_other = len(spec["obs"] if axis_ == "sample" else spec["samp"])
+    if len(kept) >= 2 and n_other and draw(st.integers(0, 3)) == 0:
+        # an other-axis vector that is NOT all-zero within the requested
+        # subset although its kept entries sum to exactly zero
+        q = draw(st.integers(0, n_other - 1))
+        x = draw(st.sampled_from([1.0, 2.5, 3.0, 1e300]))
+        rows = [list(r) for r in spec["rows"]]
+        for i in range(n_ax):
+            if axis_ == "sample":
+                rows[q][i] = 0.0
+            else:
+                rows[i][q] = 0.0
+        a, b = kept[0], kept[-1]
+        if axis_ == "sample":
+            rows[q][a], rows[q][b] = x, -x
+        else:
+            rows[a][q], rows[b][q] = x, -x
+        spec["rows"] = rows
+        spec["history"] = []
+    return {"table": spec, "axis": axis_, "mask": mask_,
             "order": draw(ops.KEY), "variant": variant,
             "style": draw(st.sampled_from(STYLES)),
             "unknown": draw(st.sampled_from([False] * 6 + ["fixed", "suffix",
